@@ -32,6 +32,7 @@ import (
 var (
 	c10Worker = flag.String("c10worker", "", "internal: k/n/total (child process of the C10 check)")
 	c10One    = flag.String("c10case", "", "internal: run the single case described by this JSON file and time it")
+	c14Hist   = flag.String("c14hist", "", "internal: idx/seed/quick (child process of the C14 check)")
 )
 
 func init() {
